@@ -412,11 +412,40 @@ pub fn gen_history(r: &mut Rng, c: &GenCfg, max_terms: usize, max_unions: usize)
                     planned_unions.push((i, terms.len() - 1));
                 }
             }
+        } else if roll == 8 && r.chance(1, 2) && c.ops.contains(&"app") && c.ops.contains(&"var") && (c.ops.contains(&"bb") || c.ops.contains(&"lam")) {
+            // a binder over a context that holds an earlier term next to the bound variables: bb a b (app (f a b) T), lam a (app (var a) T).
+            // T keeps its own class; when T is united with something, the binder node changes by congruence under its binders
+            let i = r.below(terms.len());
+            let t = terms[i].clone();
+            let (a, b) = (BINDER_BASE + 300 + terms.len() as Name * 2, BINDER_BASE + 301 + terms.len() as Name * 2);
+            let two = c.ops.contains(&"bb") && c.ops.contains(&"f") && r.chance(2, 3);
+            let w = if two {
+                let inner = Tm::node("app", vec![], vec![(vec![], Tm::leaf("f", if r.chance(1, 2) { vec![a, b] } else { vec![b, a] })), (vec![], t)]);
+                Tm::node("bb", vec![], vec![(vec![a, b], inner)])
+            } else {
+                let inner = Tm::node("app", vec![], vec![(vec![], Tm::leaf("var", vec![a])), (vec![], t)]);
+                Tm::node("lam", vec![], vec![(vec![a], inner)])
+            };
+            if w.max_names() <= c.max_names {
+                fam.push("binder-over-context");
+                terms.push(w);
+                if r.chance(1, 2) && terms.len() >= 3 {
+                    let j = r.below(terms.len() - 1);
+                    if j != i {
+                        planned_unions.push((i, j));
+                    }
+                }
+            }
         } else if roll == 8 {
-            // duplicate / alpha variant / renamed copy
+            // duplicate, or an alpha variant whose bound names sort the other way round
             let i = r.below(terms.len());
             fam.push("duplicate");
-            terms.push(terms[i].clone());
+            if r.chance(1, 2) && !c.shadow {
+                let mut next = crate::tm::NUM_BASE + 400;
+                terms.push(terms[i].alpha_variant(&mut next));
+            } else {
+                terms.push(terms[i].clone());
+            }
         } else {
             // same operator skeleton with different slot arrangement (repeated slots etc.)
             let i = r.below(terms.len());
